@@ -53,7 +53,7 @@ fn conn(cell: &Cell, id: &str) -> Result<Conn, String> {
 fn scripted(seed: u64, jitter: u64, rep: &Report) -> Result<(), String> {
     let (mut cell, mut cfg) = simple_cell(&["primary"], 1, "transaction");
     cfg.gset("connect_timeout", "5000");
-    cfg.gset("idle_client_in_transaction_timeout", "150");
+    cfg.gset("idle_client_in_transaction_timeout", "600");
     let mut so = StartOpts::default();
     if jitter > 0 {
         so.jitter = Some(format!("{}:{}:client.", seed, jitter));
@@ -218,14 +218,22 @@ fn scripted(seed: u64, jitter: u64, rep: &Report) -> Result<(), String> {
         let n0 = cell.log.len();
         send_cancel(&addr, x.pid, x.key).map_err(|e| e.to_string())?;
         rep.count("cancels_during_autocommit_copy_in", 1);
-        // keep streaming: the pooler's idle-in-transaction timeout (150 ms here) must not end the
+        // keep streaming: the pooler's idle-in-transaction timeout (600 ms here) must not end the
         // COPY, and with it the server session, while the CancelRequest is still on its way
+        let mut worst_gap_ms = 0;
+        let mut t_last = now_ns();
         for _ in 0..5 {
             sleep_ms(40);
             x.send(&proto::copy_data(b"2\ttwo\n")).map_err(|e| e.to_string())?;
+            worst_gap_ms = worst_gap_ms.max((now_ns() - t_last) / 1_000_000);
+            t_last = now_ns();
         }
         let cs = cancels_since(&cell, n0);
-        if cs.is_empty() {
+        if worst_gap_ms >= 400 {
+            // this thread was held up for most of the pooler's timeout: the COPY may have been ended
+            // by the pooler meanwhile, the premise of this phase is gone
+            rep.count("copy_in_phase_not_judged_harness_thread_delayed", 1);
+        } else if cs.is_empty() {
             rep.violation(
                 "C10|valid_cancel_not_delivered_to_own_server_session|state=autocommit_copy_from_stdin",
                 "X was streaming CopyData of an autocommit COPY FROM STDIN (it holds a server); a cancel with X's key reached no server",
@@ -235,7 +243,7 @@ fn scripted(seed: u64, jitter: u64, rep: &Report) -> Result<(), String> {
             rep.count("hits_on_own_session_during_copy_in", 1);
         }
         for c in &cs {
-            if c.3.as_deref() != Some("X") {
+            if c.3.as_deref() != Some("X") && worst_gap_ms < 400 {
                 rep.violation(
                     "C10|cancel_hit_session_not_running_requesters_statement",
                     &format!("during X's COPY FROM STDIN a cancel with X's key arrived at a session of {:?} (matched sid {:?}, running {:?}; all cancels seen: {:?})", c.3, c.1, c.2, cs),
@@ -258,7 +266,7 @@ fn scripted(seed: u64, jitter: u64, rep: &Report) -> Result<(), String> {
             }
             _ => {
                 let _ = x.query(&format!("BEGIN {}", tag("X", "X.j1", "")), 5000).map_err(|(m, e)| format!("X begin: {:?} {}", e, summarize(&m)))?;
-                // wait for the pooler's timeout (150 ms) to take the server away
+                // wait for the pooler's timeout (600 ms) to take the server away
                 let _ = x.read_until_ready(3000);
             }
         }
